@@ -541,8 +541,14 @@ func init() {
 			"typed-integer-big-xmax":   {"type": "integer", "enum": []any{3, 4294967296}, "exclusiveMaximum": 4294967297},
 			"typed-number-bounded":     {"type": "number", "enum": []any{1.5, 2}, "minimum": 1, "maximum": 2},
 			"typed-string-constrained": {"type": "string", "enum": []any{"red", "green"}, "minLength": 3},
+			// MANY members (tests and examples have a handful): membership is decided the same way for 3 and for 13
+			"large-mixed":         {"enum": []any{"off", "fatal", "error", "warn", "info", "debug", "trace", 0, 1, 2, 3, true, nil}},
+			"large-mixed-no-null": {"enum": []any{"red", "green", "blue", "a", "b", "l", "m", 1, 2, 3, 10, 2.5, false}},
+			"large-strings":       {"type": "string", "enum": []any{"red", "green", "blue", "a", "b", "l", "m", "x", "y", "only", "new", "none"}},
+			"large-integers":      {"type": "integer", "enum": []any{0, 1, 2, 3, 4, 5, 6, 7, 8, 9, 10, 11, 12}},
+			"large-numbers":       {"type": "number", "enum": []any{0.5, 1.5, 2.5, 3.25, 4.5, 5.5, 6.5, 7.5, 8.5, 9.5, 10.5, 11.5}},
 		}
-		probes := []any{"red", "green", "x y", "blue", "a", "only", "", "RED", 1, 2, 3, 10, -1, 0, 1.5, 2.5, 3.25, true, false, nil, []any{}, M{}, []any{"red"}, "b", "l", "m",
+		probes := []any{"red", "green", "x y", "blue", "a", "only", "", "RED", 1, 2, 3, 10, -1, 0, 1.5, 2.5, 3.25, true, false, nil, []any{}, M{}, []any{"red"}, M{"off": 1}, []any{"off"}, "off", "trace", "b", "l", "m",
 			"true", "false", "1", "2", "auto", "<nil>", "null", "1.5", "x", "y", "50%off", "10%off", "none", "100%", "%s", "50%!o(MISSING)ff", "5% flat",
 			"a\"b", "back\\slash", "new\nline", "tab\there", "日本", "it's", "{{x}}", "$1", "new", "レベル１", "レベル２", "レベル1", "مرحله۱", "مرحله۲", "स्तर१", "स्तर१०", "v1", "v１", "v۱", "v2", "άλφα", "альфа", "ალფა", "ǆ", "ǅ", "ß", "ẞ", "ı", "İ", "i", 1073741824, 4294967296, 8589934592, -8589934592, 5, 4}
 		var pcs []*core.PCase
@@ -568,7 +574,7 @@ func init() {
 					schema = M{"type": "object", "properties": M{"v": M{"$ref": "#/$defs/E"}}, "required": []any{"v"}, "$defs": M{"E": sh}}
 					mk = func(v any) any { return M{"v": v} }
 				case "default":
-					if name == "mixed" || name == "mixed-null" || name == "percent-mixed" || strings.HasPrefix(name, "text-twins") {
+					if name == "mixed" || name == "mixed-null" || name == "percent-mixed" || strings.HasPrefix(name, "text-twins") || strings.HasPrefix(name, "large-mixed") {
 						continue // default on a struct-wrapped enum: ill-typed literal, known finding K4
 					}
 					withDef := M{}
